@@ -182,7 +182,7 @@ function deepmergeConstructor(options: any) {
     const sourceIsArray = Array.isArray(source);
     const targetIsArray = Array.isArray(target);
 
-    if (isPrimitive(source)) {
+    if (isPrimitiveOrBuiltIn(source)) {
       return source;
     } else if (isPrimitiveOrBuiltIn(target)) {
       return clone(source);
